@@ -1,5 +1,6 @@
 import PdfModel.Lemmas.ConcurrentLive
 import PdfModel.Lemmas.ConcurrentLazyLive
+import PdfModel.Lemmas.ConcurrentLocks
 import PdfModel.Props.C12
 
 /-!
@@ -31,6 +32,11 @@ objects (`Lazy<T>::load` = `OnceCell::get_or_try_init`; cell = empty | loading(b
 back into the system above. `lazy_no_panic`, `lazy_answers_lone_caller`, `lazy_cell_value` / `lazy_cell_set_once` /
 `lazy_one_initialiser` (at most one initialisation visible), `lazy_deadlock_free`, `generated_lazy`; counter-example
 for the check / initialise outside / `set().expect()` variant: `lazy_racy_panics`.
+
+Third layer (`Model/ConcurrentLocks.lean`, last section of this file): the callbacks into user code (`Log::log_get`,
+`Log::load_object`; `Cfg.cb`) as steps of their own and the mutexes of `get` made explicit (lock / body + unlock).
+`callback_holds_no_mutex`, `mutex_holder_can_move`, `mutex_wait_is_short`, `locks_refine`, `deadlock_only_in_user_code`;
+counter-example for `log_get` under the chain mutex: `log_under_lock_deadlocks`.
 
 Not true of the code, kept as `C13_full` with counter-examples: with *cyclic* typed loads two threads
 that enter the cycle at different objects wait for each other's in-process marker for ever (D30, open;
@@ -289,7 +295,7 @@ example : ∀ cs ∈ [[getCall (V := Nat) (E := Nat) 1 3, getCall 0 1], [getCall
 
 example :
     (fun s : State Nat Nat => (s.allDone, s.threads.map (·.out)))
-      (runFirst demo ⟨true, true, false⟩ 200 (State.init [] [] [[getCall 1 3, getCall 0 1], [getCall 0 2, getCall 1 3]]))
+      (runFirst demo ⟨true, true, false, false⟩ 200 (State.init [] [] [[getCall 1 3, getCall 0 1], [getCall 0 2, getCall 1 3]]))
       = (true, [[.ok 201, .err 7], [.ok 0, .ok 201]]) := by decide +kernel
 
 example : outputs demo Cache.Cfg.none 4 [getCall 1 3, getCall 0 1] = [.ok 201, .err 7] ∧
@@ -297,7 +303,7 @@ example : outputs demo Cache.Cfg.none 4 [getCall 1 3, getCall 0 1] = [.ok 201, .
 
 /-- an interleaved schedule (thread 1 claims object 2 while thread 0 is inside object 3, thread 0 then waits for it) -/
 example :
-    ((runSched demo ⟨true, true, false⟩ (State.init [] [] [[getCall 1 3], [getCall 1 2]])
+    ((runSched demo ⟨true, true, false, false⟩ (State.init [] [] [[getCall 1 3], [getCall 1 2]])
         [0, 0, 0, 1, 1, 1, 0, 0]).map fun s => s.threads.map fun t => match t.ctl with
           | .waiting _ r _ => r + 100
           | .enter _ r _ => r
@@ -321,9 +327,9 @@ def wBody (T r : Nat) : Prog Nat Nat :=
 
 def wDoc : Doc Nat Nat := ⟨wBody, fun _ => .ret (.ok 0), fun _ _ => .ok 0, 5⟩
 
-def oldGuard : Cfg := ⟨false, false, true⟩
-def newGuard : Cfg := ⟨false, false, false⟩
-def cached : Cfg := ⟨true, false, false⟩
+def oldGuard : Cfg := ⟨false, false, true, false⟩
+def newGuard : Cfg := ⟨false, false, false, false⟩
+def cached : Cfg := ⟨true, false, false, false⟩
 
 def twoLoads (a b : Nat) : State Nat Nat := State.init [] [] [[getCall 0 a], [getCall 0 b]]
 
@@ -595,5 +601,169 @@ theorem lazy_no_panic_needs_once_cell : ¬ ∀ (lc : LCfg), lc.cfg.sharedGuard =
     have := h ⟨newGuard, true⟩ rfl s (hreach _ _ _ .init hs)
     rw [hrun] at this
     exact absurd this (by decide)
+
+end Conc
+
+/-! ## Callbacks into user code and the mutexes of `get` (`Model/ConcurrentLocks.lean`)
+
+`Cfg.cb = true` makes the callbacks into the user's `Log` steps of their own in the system above (`Ctl.logging`:
+inside `log_get`; `Ctl.loading`: inside the first `load_object` of a compute / reload run): every theorem above is
+about every schedule, so also about schedules that leave a thread inside a callback for as long as they like.
+The explicit-lock system splits each critical section into `lock` and `body; unlock`, and lets the user's code
+return when it pleases (`gate`). Proved for the code under test (`logUnderLock = false`), any document, any gate: -/
+
+namespace Conc
+open Cache
+variable {V E : Type}
+
+section Locks
+variable {d : Doc V E}
+
+/-- **At every callback into user code the calling thread holds none of the resolver's mutexes** — and, more
+    generally, a thread holds a mutex only at a control point whose step takes exactly that mutex. -/
+theorem callback_holds_no_mutex {wc : WCfg} (hw : wc.logUnderLock = false) {gate : Nat → State V E → Bool} (s0 : State V E)
+    {s : WState V E} (hr : WReachable d wc gate (WState.init s0) s)
+    (i : Nat) (t : Thread V E) (ht : s.inner.threads[i]? = some t) (hcb : isCallback t.ctl = true) :
+    s.held[i]? = some none := by
+  have h := reachable_WInv hw (init_WInv d wc s0) hr
+  have hi : i < s.held.length := by rw [h.len]; exact (List.getElem?_eq_some_iff.mp ht).1
+  cases hh : s.held[i] with
+  | none => rw [List.getElem?_eq_getElem hi, hh]
+  | some L =>
+    have := (h.holds i t L ht (by rw [List.getElem?_eq_getElem hi, hh])).1
+    rw [lockOf_not_callback this] at hcb
+    cases hcb
+
+theorem mutex_holder_at_its_section {wc : WCfg} (hw : wc.logUnderLock = false) {gate : Nat → State V E → Bool} (s0 : State V E)
+    {s : WState V E} (hr : WReachable d wc gate (WState.init s0) s)
+    (i : Nat) (t : Thread V E) (L : Lock) (ht : s.inner.threads[i]? = some t) (hh : s.held[i]? = some (some L)) :
+    lockOf wc.cfg t.ctl = some L :=
+  ((reachable_WInv hw (init_WInv d wc s0) hr).holds i t L ht hh).1
+
+theorem mutex_exclusive {wc : WCfg} (hw : wc.logUnderLock = false) {gate : Nat → State V E → Bool} (s0 : State V E)
+    {s : WState V E} (hr : WReachable d wc gate (WState.init s0) s)
+    (i j : Nat) (L : Lock) (hi : s.held[i]? = some (some L)) (hj : s.held[j]? = some (some L)) : i = j :=
+  (reachable_WInv hw (init_WInv d wc s0) hr).excl i j L hi hj
+
+/-- **Nobody waits while holding a mutex**: the holder of a mutex can always take its step (body and unlock),
+    whatever the user's code and the other threads do. Hence a thread that finds a mutex taken waits for one step
+    of a thread that can move (`mutex_wait_is_short`). -/
+theorem mutex_holder_can_move {wc : WCfg} (hw : wc.logUnderLock = false) {gate : Nat → State V E → Bool} (s0 : State V E)
+    {s : WState V E} (hr : WReachable d wc gate (WState.init s0) s)
+    (i : Nat) (L : Lock) (hh : s.held[i]? = some (some L)) : s.enabled d wc gate i = true := by
+  have h := reachable_WInv hw (init_WInv d wc s0) hr
+  have hi : i < s.inner.threads.length := by rw [← h.len]; exact (List.getElem?_eq_some_iff.mp hh).1
+  have ht : s.inner.threads[i]? = some s.inner.threads[i] := List.getElem?_eq_getElem hi
+  obtain ⟨h1, h2⟩ := h.holds i _ L ht hh
+  unfold WState.enabled wstep
+  simp only [ht, hh, Option.isSome_map]
+  unfold userStep
+  simp [lockOf_not_callback h1, h2]
+
+theorem mutex_wait_is_short {wc : WCfg} (hw : wc.logUnderLock = false) {gate : Nat → State V E → Bool} (s0 : State V E)
+    {s : WState V E} (hr : WReachable d wc gate (WState.init s0) s) (L : Lock) (hb : lockFree s.held L = false) :
+    ∃ j, s.held[j]? = some (some L) ∧ s.enabled d wc gate j = true := by
+  simp only [lockFree, List.all_eq_false] at hb
+  obtain ⟨x, hx, hne⟩ := hb
+  have hx' : x = some L := by simpa using hne
+  subst hx'
+  obtain ⟨j, hj, e⟩ := List.getElem_of_mem hx
+  have hh : s.held[j]? = some (some L) := by rw [List.getElem?_eq_getElem hj, e]
+  exact ⟨j, hh, mutex_holder_can_move hw s0 hr j L hh⟩
+
+/-- the explicit-lock system refines the system above: what is reachable here is reachable there, so all the
+    theorems of this file apply to its states (`reachable_inner`) -/
+theorem locks_refine {wc : WCfg} {gate : Nat → State V E → Bool} (s0 : State V E) {s : WState V E}
+    (hr : WReachable d wc gate (WState.init s0) s) : Reachable d wc.cfg s0 s.inner :=
+  reachable_inner hr
+
+end Locks
+
+section LocksAcyclic
+variable {d : Doc V E} {filt : Nat → List Nat} {rank : Nat → Nat} {N : Nat}
+
+/-- **The library adds no wait of its own.** On a document with well-founded typed loads, when no thread can
+    move although somebody is not finished, then some thread sits inside user code that has not returned
+    (a `Log` callback whose gate is closed): the only deadlocks are the user's. -/
+theorem deadlock_only_in_user_code (wf : WF d filt rank) (hN : ∀ r, rank r < N) (hD : N ≤ maxNestedGets) {wc : WCfg}
+    (hg : wc.cfg.sharedGuard = false) (hw : wc.logUnderLock = false) {gate : Nat → State V E → Bool}
+    (stm : List (Nat × Res V E)) (css : List (List (Prog V E)))
+    (hsh : SInv d filt (ans d rank) ⟨[], stm, [], false⟩)
+    (hcalls : ∀ cs ∈ css, ∀ p ∈ cs, FineCall filt p)
+    {s : WState V E} (hr : WReachable d wc gate (WState.init (State.init [] stm css)) s)
+    (hdl : s.deadlocked d wc gate = true) :
+    ∃ i t, s.inner.threads[i]? = some t ∧ isCallback t.ctl = true ∧ gate i s.inner = false := by
+  have hin := deadlock_free_of_acyclic wf hN hD hg stm css hsh hcalls (locks_refine _ hr)
+  have h := reachable_WInv hw (init_WInv d wc _) hr
+  simp only [WState.deadlocked, Bool.and_eq_true, Bool.not_eq_true', List.all_eq_true, List.mem_range] at hdl
+  obtain ⟨hnd, hnone⟩ := hdl
+  -- some inner thread can take its inner step
+  simp only [State.deadlocked, hnd, Bool.not_false, Bool.true_and, List.all_eq_false, List.mem_range] at hin
+  obtain ⟨j, hj, hen⟩ := hin
+  have hen : (step d wc.cfg s.inner j).isSome = true := by
+    cases hst : step d wc.cfg s.inner j with
+    | none => simp [State.enabled, hst] at hen
+    | some x => rfl
+  have htj : s.inner.threads[j]? = some s.inner.threads[j] := List.getElem?_eq_getElem hj
+  have hjh : j < s.held.length := by rw [h.len]; exact hj
+  have hblocked := hnone j hj
+  cases hh : s.held[j] with
+  | some L =>
+    have := mutex_holder_can_move hw _ hr j L (by rw [List.getElem?_eq_getElem hjh, hh])
+    rw [hblocked] at this; cases this
+  | none =>
+    have hhj : s.held[j]? = some none := by rw [List.getElem?_eq_getElem hjh, hh]
+    cases hlo : lockOf wc.cfg s.inner.threads[j].ctl with
+    | none =>
+      -- no mutex needed: only the user's gate can hold the thread
+      simp only [WState.enabled, wstep, htj, hhj, wlockOf_eq hw, hlo, Option.isSome_map, userStep] at hblocked
+      by_cases hc : (isCallback s.inner.threads[j].ctl && !gate j s.inner) = true
+      · simp only [Bool.and_eq_true, Bool.not_eq_true'] at hc
+        exact ⟨j, _, htj, hc.1, hc.2⟩
+      · simp only [hc, Bool.false_eq_true, if_false] at hblocked
+        rw [hen] at hblocked; cases hblocked
+    | some L =>
+      simp only [WState.enabled, wstep, htj, hhj, wlockOf_eq hw, hlo, hen, Bool.and_true] at hblocked
+      cases hf : lockFree s.held L with
+      | true => simp [hf] at hblocked
+      | false =>
+        obtain ⟨k, hk, hke⟩ := mutex_wait_is_short hw _ hr L hf
+        have hkl : k < s.inner.threads.length := by rw [← h.len]; exact (List.getElem?_eq_some_iff.mp hk).1
+        rw [hnone k hkl] at hke; cases hke
+
+end LocksAcyclic
+
+/-! ### Counter-example: `log_get` inside the block that holds the chain mutex
+
+Two threads share a resolver; the user's `log_get` of thread 0 waits until thread 1 has answered its call (for
+instance: a progress display that wants the first result before it logs anything more). With `log_get` under the
+chain mutex thread 1 can never enter its `get`: nobody can move. With the code under test thread 1 runs its whole
+`get` while thread 0 is parked in its callback, then the gate opens and thread 0 finishes too. -/
+
+def cbGuard : Cfg := ⟨false, false, false, true⟩
+
+/-- thread 0's callbacks return once thread 1 has an answer; the others' at once -/
+def waitForOther (i : Nat) (s : State Nat Nat) : Bool :=
+  i != 0 || (match s.threads[1]? with | some t => !t.out.isEmpty | none => true)
+
+def twoGets : WState Nat Nat := WState.init (State.init [] [] [[getCall 0 6], [getCall 0 7]])
+
+theorem log_under_lock_deadlocks :
+    (wrunSched wDoc ⟨cbGuard, true⟩ waitForOther twoGets [0, 0, 1]).map
+      (fun s => (s.deadlocked wDoc ⟨cbGuard, true⟩ waitForOther, s.lockAcrossCallback)) = some (true, true) := by
+  decide +kernel
+
+/-- the code under test, same beginning: thread 1 is enabled, runs to the end, then thread 0 does -/
+example :
+    (wrunSched wDoc ⟨cbGuard, false⟩ waitForOther twoGets [0, 1]).map
+      (fun s => (s.enabled wDoc ⟨cbGuard, false⟩ waitForOther 0, s.enabled wDoc ⟨cbGuard, false⟩ waitForOther 1, s.lockAcrossCallback))
+      = some (false, true, false) := by
+  decide +kernel
+
+example :
+    (wrunSched wDoc ⟨cbGuard, false⟩ waitForOther twoGets
+        [0, 1, 1, 1, 1, 1, 1, 1, 1, 1, 0, 0, 0, 0, 0, 0, 0, 0]).map
+      (fun s => (s.inner.allDone, s.inner.anyPanic, s.inner.threads.map (·.out))) = some (true, false, [[.ok 106], [.ok 107]]) := by
+  decide +kernel
 
 end Conc
